@@ -7,6 +7,8 @@
   order and numbers, so writing and reading a file is the identity on the model's `J` values
   (trusted, DESIGN.md §6).
 -/
+import Std.Data.String.ToInt
+import BB.Proofs.Basic
 import BB.Proofs.Copy
 import BB.Proofs.RoundTrip
 import BB.Model.Describe
@@ -315,6 +317,327 @@ theorem roundtrip_observables (b b' : BP) (h : BP.ofDesc b.toDesc = .ok b') (h1 
   refine ⟨?_, rfl, rfl⟩
   unfold BP.beq BP.names
   simp
+
+/-! ### blueprint descriptions with extra fields (an element adds "flags") -/
+
+/-- the fields of a blueprint description followed by further fields -/
+def fieldsX (b : BP) (extra : List (String × J)) : List (String × J) :=
+  ((b.segs.zip (List.range b.segs.length)).map (fun (s, i) => (segKey (i + 1), segRecord s))) ++
+    ([ ("marker1_abs", J.arr (b.marker1.map J.ofMark)), ("marker2_abs", .arr (b.marker2.map J.ofMark))
+     , ("marker1_rel", .arr (b.segs.map (fun s => J.ofMark s.m1)))
+     , ("marker2_rel", .arr (b.segs.map (fun s => J.ofMark s.m2))) ] ++ extra)
+
+theorem fieldsX_eq (b : BP) (extra : List (String × J)) (l : List (String × J)) (hl : b.toDesc = .obj l) :
+    l ++ extra = fieldsX b extra := by
+  rw [desc_shape] at hl
+  simp only [J.obj.injEq] at hl
+  subst hl
+  unfold fieldsX
+  rw [List.append_assoc]
+
+theorem get_marker_fields_extra (b : BP) (k : String) (v : J) (extra : List (String × J))
+    (hk : hasSub k "segment" = false)
+    (hv : List.lookup k [ ("marker1_abs", J.arr (b.marker1.map J.ofMark)), ("marker2_abs", .arr (b.marker2.map J.ofMark))
+      , ("marker1_rel", .arr (b.segs.map (fun s => J.ofMark s.m1)))
+      , ("marker2_rel", .arr (b.segs.map (fun s => J.ofMark s.m2))) ] = some v) :
+    (J.obj (fieldsX b extra)).get? k = some v := by
+  simp only [J.get?, fieldsX]
+  rw [lookup_append_of_not_mem]
+  · rw [List.lookup_append, hv]; rfl
+  · intro p hp
+    simp only [List.mem_map] at hp
+    obtain ⟨⟨s, i⟩, _, rfl⟩ := hp
+    intro e
+    have := hasSub_segKey (i + 1)
+    simp only at e
+    rw [e, hk] at this
+    cases this
+
+/-- the round trip is not disturbed by further fields whose keys do not contain "segment" -/
+theorem roundtrip_bp_extra (b : BP) (h1 : Inv b) (h2 : Inv2 b) (hok : ∀ s ∈ b.segs, SegOk s)
+    (extra : List (String × J)) (hex : ∀ p ∈ extra, hasSub p.1 "segment" = false)
+    (l : List (String × J)) (hl : b.toDesc = .obj l) :
+    BP.ofDesc (.obj (l ++ extra)) = .ok { b with SR := .none } := by
+  obtain ⟨l', hlen, hl', hsum⟩ := sumSegs_records b.segs hok h2 0 {} (by rfl)
+  have hm := hasSub_marker_keys
+  have hfil : ((fieldsX b extra).filter (fun (kv : String × J) => hasSub kv.1 "segment")).map (fun (p : String × J) => p.2)
+      = b.segs.map record := filter_segments b _
+    (by
+      intro p hp
+      rw [List.mem_append] at hp
+      rcases hp with hp | hp
+      · simp only [List.mem_cons, List.not_mem_nil, or_false] at hp
+        rcases hp with rfl | rfl | rfl | rfl
+        · exact hm.1
+        · exact hm.2.1
+        · exact hm.2.2.1
+        · exact hm.2.2.2
+      · exact hex p hp)
+  have m1 : marksOf (J.obj (fieldsX b extra)) "marker1_abs" = .ok b.marker1 :=
+    marksOf_arr _ _ _ (get_marker_fields_extra b "marker1_abs" _ extra hm.1 (by simp [List.lookup]))
+  have m2 : marksOf (J.obj (fieldsX b extra)) "marker2_abs" = .ok b.marker2 :=
+    marksOf_arr _ _ _ (get_marker_fields_extra b "marker2_abs" _ extra hm.2.1 (by simp [List.lookup]))
+  have m3 : marksOf (J.obj (fieldsX b extra)) "marker1_rel" = .ok (b.segs.map (·.m1)) := by
+    apply marksOf_arr
+    rw [get_marker_fields_extra b "marker1_rel" (J.arr (b.segs.map (fun s => J.ofMark s.m1))) extra hm.2.2.1 (by simp [List.lookup])]
+    simp [List.map_map, Function.comp_def]
+  have m4 : marksOf (J.obj (fieldsX b extra)) "marker2_rel" = .ok (b.segs.map (·.m2)) := by
+    apply marksOf_arr
+    rw [get_marker_fields_extra b "marker2_rel" (J.arr (b.segs.map (fun s => J.ofMark s.m2))) extra hm.2.2.2 (by simp [List.lookup])]
+    simp [List.map_map, Function.comp_def]
+  have hc := canon_stripped b h1 l' hlen hl'
+  rw [fieldsX_eq b extra l hl]
+  unfold BP.ofDesc
+  simp only [hfil, hsum, m1, m2, m3, m4]
+  simp only [List.nil_append, hc, setSegMarks_restore]
+
+/-! ### the round trip of an element (blueprint channels, with or without flags) -/
+
+section element
+open BB.Element
+
+theorem upsert_of_not_mem {α : Type} (d : Dict Chan α) (k : Chan) (v : α) (h : k ∉ Dict.keys d) :
+    Dict.upsert d k v = d ++ [(k, v)] := by
+  induction d with
+  | nil => rfl
+  | cons kv rest ih =>
+    obtain ⟨k', w⟩ := kv
+    unfold Dict.upsert
+    have hk : k' ≠ k := by
+      intro e; apply h; simp [Dict.keys, e]
+    have hr : k ∉ Dict.keys rest := by
+      intro hm; apply h; simp only [Dict.keys, List.map_cons, List.mem_cons]; right; exact hm
+    simp only [hk, if_false, List.cons_append, ih hr]
+
+theorem upsert_append_self {α : Type} (d : Dict Chan α) (k : Chan) (v v' : α) (h : k ∉ Dict.keys d) :
+    Dict.upsert (d ++ [(k, v)]) k v' = d ++ [(k, v')] := by
+  induction d with
+  | nil => simp [Dict.upsert]
+  | cons kv rest ih =>
+    obtain ⟨k', w⟩ := kv
+    have hk : k' ≠ k := by
+      intro e; apply h; simp [Dict.keys, e]
+    have hr : k ∉ Dict.keys rest := by
+      intro hm; apply h; simp only [Dict.keys, List.map_cons, List.mem_cons]; right; exact hm
+    simp only [List.cons_append, Dict.upsert, hk, if_false, ih hr]
+
+theorem get?_append_self {α : Type} (d : Dict Chan α) (k : Chan) (v : α) (h : k ∉ Dict.keys d) :
+    Dict.get? (d ++ [(k, v)]) k = some v := by
+  rw [← upsert_of_not_mem d k v h]
+  exact Dict.get?_upsert_self d k v
+
+/-- what a description keeps of a channel entry: everything but the blueprint's sample rate -/
+def stripSR (ent : ChEntry) : ChEntry :=
+  match ent.data with
+  | .bp b => { ent with data := .bp { b with SR := .none } }
+  | _ => ent
+
+/-- the text of an integer channel number parses back to it (`int(str(n)) == n`) -/
+theorem parseChan_int (n : Int) : parseChan (Chan.int n).toStr = .ok (.int n) := by
+  have : (toString n : String) = n.repr := rfl
+  simp only [parseChan, Chan.toStr, this, Int.toInt?_repr]
+
+/-- a channel that `element_from_description` can rebuild: an integer channel number (the code
+    calls `int(key)`, so a string-named channel is refused), holding a blueprint reachable through
+    the public API over the built-in shapes, with flags (if any) as `addFlags` stores them -/
+def ChanOk (p : Chan × ChEntry) : Prop :=
+  (∃ n, p.1 = Chan.int n) ∧
+  ∃ b, p.2.data = .bp b ∧ Inv b ∧ Inv2 b ∧ (∀ s ∈ b.segs, SegOk s) ∧ b.segs ≠ [] ∧
+    (∀ fl, p.2.flags = some fl → fl.length = 4 ∧ ∀ n ∈ fl, n ≤ 4)
+
+theorem flagToken_num (n : Nat) (h : n ≤ 4) : flagToken? (J.toVal (J.num ((n : Int) : Rat))) = some n := by
+  have : n = 0 ∨ n = 1 ∨ n = 2 ∨ n = 3 ∨ n = 4 := by omega
+  rcases this with rfl | rfl | rfl | rfl | rfl <;> decide
+
+theorem flags_back (fl : List Nat) (h : ∀ n ∈ fl, n ≤ 4) :
+    ((fl.map (fun (n : Nat) => J.num ((n : Int) : Rat))).map J.toVal).mapM flagToken? = some fl := by
+  induction fl with
+  | nil => rfl
+  | cons n ns ih =>
+    simp only [List.map_cons, List.mapM_cons, flagToken_num n (h n (by simp)), ih (fun m hm => h m (by simp [hm]))]
+    rfl
+
+theorem no_flags_field (b : BP) : b.toDesc.get? "flags" = none := by
+  rw [desc_shape]
+  simp only [J.get?]
+  rw [lookup_append_of_not_mem]
+  · simp [List.lookup]
+  · intro p hp
+    simp only [List.mem_map] at hp
+    obtain ⟨⟨s, i⟩, _, rfl⟩ := hp
+    intro e
+    have := hasSub_segKey (i + 1)
+    simp only at e
+    rw [e] at this
+    revert this
+    decide
+
+theorem flags_field (b : BP) (l : List (String × J)) (hl : b.toDesc = .obj l) (v : J) :
+    (J.obj (l ++ [("flags", v)])).get? "flags" = some v := by
+  have hn := no_flags_field b
+  rw [hl] at hn
+  simp only [J.get?] at hn ⊢
+  rw [List.lookup_append, hn]
+  simp [List.lookup]
+
+theorem chanDesc_plain (b : BP) : chanDesc ⟨.bp b, none⟩ = .ok b.toDesc := by
+  unfold chanDesc
+  rw [desc_shape]
+  rfl
+
+theorem chanDesc_flags (b : BP) (fl : List Nat) (l : List (String × J)) (hl : b.toDesc = .obj l) :
+    chanDesc ⟨.bp b, some fl⟩ = .ok (J.obj (l ++ [("flags", flagsJ fl)])) := by
+  unfold chanDesc
+  simp only [hl]
+  rfl
+
+/-- one channel read back into an element that does not have it yet -/
+theorem chanOfDesc_step (e0 : Element) (p : Chan × ChEntry) (hp : ChanOk p) (hnew : p.1 ∉ Dict.keys e0.chans)
+    (kd : String × J) (hkd : chanField p = .ok kd) :
+    chanOfDesc e0 kd.1 kd.2 none = .ok { e0 with chans := e0.chans ++ [(p.1, stripSR p.2)] } := by
+  obtain ⟨ch, ent⟩ := p
+  obtain ⟨⟨nch, hint⟩, b, hdata, h1, h2, hok, hne, hfl⟩ := hp
+  obtain ⟨dat, flags⟩ := ent
+  simp only at hdata hfl hint hnew
+  have hparse : parseChan ch.toStr = .ok ch := by rw [hint]; exact parseChan_int nch
+  subst hdata
+  have hb' : BP.copy { b with SR := Val.none } = { b with SR := Val.none } := copy_eq_self h1 h2
+  have hempty : ({ b with SR := Val.none } : BP).segs.isEmpty = false := by
+    simpa [List.isEmpty_iff] using hne
+  obtain ⟨l, hl⟩ : ∃ l, b.toDesc = .obj l := ⟨_, desc_shape b⟩
+  cases flags with
+  | none =>
+    have : kd = (ch.toStr, b.toDesc) := by
+      simp only [chanField, chanDesc_plain, Except.ok.injEq] at hkd
+      exact hkd.symm
+    subst this
+    simp only [chanOfDesc, hparse, roundtrip_bp b h1 h2 hok, withSR, addBluePrint, hempty, Bool.false_eq_true, if_false,
+      no_flags_field b, hb', stripSR]
+    rw [upsert_of_not_mem _ _ _ hnew]
+  | some fl =>
+    obtain ⟨hlen, hle⟩ := hfl fl rfl
+    have : kd = (ch.toStr, J.obj (l ++ [("flags", flagsJ fl)])) := by
+      simp only [chanField, chanDesc_flags b fl l hl, Except.ok.injEq] at hkd
+      exact hkd.symm
+    subst this
+    have hrt := roundtrip_bp_extra b h1 h2 hok [("flags", flagsJ fl)] (by
+      intro p hp
+      simp only [List.mem_singleton] at hp
+      subst hp
+      show hasSub "flags" "segment" = false
+      decide) l hl
+    simp only [flagsJ] at hrt
+    have hlenb : Gen.flagsLenBad (List.map J.toVal (fl.map (fun (n : Nat) => J.num ((n : Int) : Rat)))).length = false := by
+      simp [Gen.flagsLenBad, hlen]
+    simp only [chanOfDesc, hparse, hrt, withSR, addBluePrint, hempty, Bool.false_eq_true, if_false,
+      flags_field b l hl, flagsJ, addFlags, hlenb, flags_back fl hle, hb', stripSR]
+    rw [upsert_of_not_mem _ _ _ hnew, get?_append_self _ _ _ hnew]
+    simp only [upsert_append_self _ _ _ _ hnew]
+
+/-- **the round trip of an element**: an element whose channels are integer-numbered blueprint
+    channels (blueprints reachable through the public API over the built-in shapes, flags as
+    `addFlags` stores them) is rebuilt by `element_from_description` from its own description
+    with the same channels in the same order, the same blueprints — every segment, argument,
+    duration, marker — and the same flags; only the blueprints' sample rate is not carried. -/
+theorem roundtrip_el (chans : Dict Chan ChEntry) (cache : Option (Val × Rat))
+    (hnd : (Dict.keys chans).Nodup) (hok : ∀ p ∈ chans, ChanOk p) (d : J)
+    (hd : (⟨chans, cache⟩ : Element).toDesc = .ok d) :
+    Element.ofDesc d = .ok ⟨chans.map (fun p => (p.1, stripSR p.2)), none⟩ := by
+  unfold Element.toDesc at hd
+  split at hd
+  · cases hd
+  · rename_i fields hfields
+    simp only [Except.ok.injEq] at hd
+    subst hd
+    simp only [Element.ofDesc]
+    -- generalise the accumulator
+    have gen : ∀ (rest : Dict Chan ChEntry) (fs : List (String × J)) (acc : Dict Chan ChEntry),
+        rest.mapM chanField = .ok fs → (Dict.keys (acc ++ rest)).Nodup → (∀ p ∈ rest, ChanOk p) →
+        fs.foldlM (fun e kd => chanOfDesc e kd.1 kd.2 none) (⟨acc, none⟩ : Element) =
+          .ok ⟨acc ++ rest.map (fun p => (p.1, stripSR p.2)), none⟩ := by
+      intro rest
+      induction rest with
+      | nil =>
+        intro fs acc hfs _ _
+        simp only [List.mapM_nil, pure, Except.pure, Except.ok.injEq] at hfs
+        subst hfs
+        simp [List.foldlM, pure, Except.pure]
+      | cons p ps ih =>
+        intro fs acc hfs hnd hok
+        rw [mapM_cons_eq] at hfs
+        cases hp : chanField p with
+        | error er => rw [hp] at hfs; cases hfs
+        | ok kd =>
+          rw [hp] at hfs
+          cases hps : ps.mapM chanField with
+          | error er => rw [hps] at hfs; cases hfs
+          | ok fs' =>
+            rw [hps] at hfs
+            simp only [Except.ok.injEq] at hfs
+            subst hfs
+            have hnew : p.1 ∉ Dict.keys acc := by
+              intro hm
+              simp only [Dict.keys, List.map_append, List.map_cons] at hnd hm
+              have := List.nodup_append.mp hnd
+              exact this.2.2 _ hm _ (by simp) rfl
+            have hstep := chanOfDesc_step ⟨acc, none⟩ p (hok p (by simp)) hnew kd hp
+            simp only [List.foldlM_cons, bind, Except.bind, hstep]
+            have := ih fs' (acc ++ [(p.1, stripSR p.2)]) hps
+              (by
+                simp only [Dict.keys, List.map_append, List.map_cons, List.map_nil, List.append_assoc, List.cons_append,
+                  List.nil_append] at hnd ⊢
+                exact hnd)
+              (fun q hq => hok q (by simp [hq]))
+            rw [this]
+            simp
+    have := gen chans fields [] hfields (by simpa using hnd) hok
+    simpa using this
+
+theorem chanField_strip (p : Chan × ChEntry) : chanField (p.1, stripSR p.2) = chanField p := by
+  obtain ⟨ch, dat, fl⟩ := p
+  cases dat <;> rfl
+
+/-- … so the read-back element has the same description (and the same channels in the same order)
+    as the original: describing, reading back and describing again is the identity on descriptions -/
+theorem roundtrip_el_desc (chans : Dict Chan ChEntry) (cache : Option (Val × Rat))
+    (hnd : (Dict.keys chans).Nodup) (hok : ∀ p ∈ chans, ChanOk p) (d : J)
+    (hd : (⟨chans, cache⟩ : Element).toDesc = .ok d) :
+    ∃ e', Element.ofDesc d = .ok e' ∧ e'.toDesc = .ok d ∧ Dict.keys e'.chans = Dict.keys chans := by
+  refine ⟨_, roundtrip_el chans cache hnd hok d hd, ?_, ?_⟩
+  · unfold Element.toDesc at hd ⊢
+    have : (chans.map (fun p => (p.1, stripSR p.2))).mapM chanField = chans.mapM chanField := by
+      rw [List.mapM_map]
+      congr 1
+      funext p
+      exact chanField_strip p
+    simp only [this]
+    exact hd
+  · simp [Dict.keys, List.map_map, Function.comp_def]
+
+/-! non-vacuity: an element with two integer channels, one of them with flags, meets the premises -/
+
+def exFn : Fn := { special := false, name := "ramp", qual := "function PulseAtoms.ramp",
+                   params := ["start", "stop", "SR", "npts"], shape := .ramp }
+def exBP : BP := { segs := [{ name := "ramp", fn := exFn, args := [.num 0, .num 1], dur := .num 1 },
+                            { name := "ramp2", fn := exFn, args := [.num 1, .num 0], dur := .num 2 }], SR := .num 10 }
+
+example : ∀ p ∈ ([(Chan.int 1, ⟨.bp exBP, none⟩), (Chan.int 2, ⟨.bp exBP, some [0, 3, 0, 1]⟩)] : Dict Chan ChEntry), ChanOk p := by
+  have hinv : BP.Inv exBP := by unfold BP.Inv; decide +kernel
+  have hinv2 : Inv2 exBP := by unfold Inv2 NameOk; decide +kernel
+  have hseg : ∀ s ∈ exBP.segs, SegOk s := by
+    intro s hs
+    simp only [exBP, List.mem_cons, List.not_mem_nil, or_false] at hs
+    rcases hs with rfl | rfl <;> exact ⟨fun h => absurd h (by decide), fun _ => ⟨by decide +kernel, by decide⟩⟩
+  intro p hp
+  simp only [List.mem_cons, List.not_mem_nil, or_false] at hp
+  rcases hp with rfl | rfl
+  · exact ⟨⟨1, rfl⟩, exBP, rfl, hinv, hinv2, hseg, by decide, by intro fl h; cases h⟩
+  · refine ⟨⟨2, rfl⟩, exBP, rfl, hinv, hinv2, hseg, by decide, ?_⟩
+    intro fl h
+    cases h
+    exact ⟨rfl, by decide⟩
+
+end element
 
 /-! ### non-vacuity -/
 
